@@ -5,6 +5,7 @@ import (
 	"go/token"
 	"go/types"
 	"sort"
+	"strings"
 
 	"golang.org/x/tools/go/ssa"
 
@@ -146,12 +147,15 @@ func (w *walker) condRules() {
 							"rule": "CV3", "function": e.P.FuncName(fn), "store": lt.Slot(fa.Field), "value": p.stay, "needs_wake": false, "at": e.P.InstrPos(in)}})
 						continue
 					}
-					woken := wakeFollows(b, i+1, lt, e)
+					// a flag that is only ever set to the releasing value releases every
+					// waiter at once: all of them must be woken (Broadcast, not Signal)
+					sticky := stickyFlag(e, lt, fa.Field, !p.stay)
+					woken := wakeFollows(b, i+1, sticky)
 					w.res.Obligations = append(w.res.Obligations, Obligation{Rule: "CV3", OK: woken, LockType: lt.Name, Sample: map[string]any{
-						"rule": "CV3", "function": e.P.FuncName(fn), "store": lt.Slot(fa.Field), "needs_wake": true, "wake_on_every_path": woken, "at": e.P.InstrPos(in)}})
+						"rule": "CV3", "function": e.P.FuncName(fn), "store": lt.Slot(fa.Field), "needs_wake": true, "releases_all_waiters": sticky, "wake_on_every_path": woken, "at": e.P.InstrPos(in)}})
 					if !woken {
 						w.res.Findings = append(w.res.Findings, Finding{Rule: "CV3", Func: e.P.FuncName(fn), Object: "lost-wakeup " + lt.Slot(fa.Field), LockType: lt.Name,
-							Pos: e.P.InstrPos(in), Reason: "a store that can end a waiter's wait is not followed on every path, before the lock is released, by Signal/Broadcast (or a timer scheduling one)"})
+							Pos: e.P.InstrPos(in), Reason: wakeReason(sticky)})
 					}
 					break
 				}
@@ -182,9 +186,44 @@ func reachFrom(b *ssa.BasicBlock, backward bool) map[*ssa.BasicBlock]bool {
 	return seen
 }
 
+func wakeReason(sticky bool) string {
+	if sticky {
+		return "a store that releases every waiter at once (the flag is never reset) is not followed on every path, before the lock is released, by Broadcast (Signal wakes only one of them; the others wait forever)"
+	}
+	return "a store that can end a waiter's wait is not followed on every path, before the lock is released, by Signal/Broadcast (or a timer scheduling one)"
+}
+
+// stickyFlag: every store to the field outside initialisation stores the constant val.
+func stickyFlag(e *Engine, lt *LockType, field int, val bool) bool {
+	n := 0
+	for _, fn := range e.P.Funcs {
+		for _, b := range fn.Blocks {
+			for _, in := range b.Instrs {
+				st, ok := in.(*ssa.Store)
+				if !ok {
+					continue
+				}
+				fa, ok := st.Addr.(*ssa.FieldAddr)
+				if !ok || fa.Field != field || e.T.LockTypeOf(fa.X.Type()) != lt {
+					continue
+				}
+				if _, isAlloc := fa.X.(*ssa.Alloc); isAlloc {
+					continue
+				}
+				n++
+				c, ok := st.Val.(*ssa.Const)
+				if !ok || c.Value == nil || c.Value.Kind() != constant.Bool || constant.BoolVal(c.Value) != val {
+					return false
+				}
+			}
+		}
+	}
+	return n > 0
+}
+
 // isWake: a call of (*sync.Cond).Signal/Broadcast, or time.AfterFunc whose function
-// argument is a bound Signal/Broadcast.
-func isWake(in ssa.Instruction) bool {
+// argument is a bound Signal/Broadcast. With broadcastOnly, Signal does not count.
+func isWake(in ssa.Instruction, broadcastOnly bool) bool {
 	c, ok := in.(*ssa.Call)
 	if !ok {
 		return false
@@ -193,15 +232,14 @@ func isWake(in ssa.Instruction) bool {
 	if callee == nil {
 		return false
 	}
-	if typ, m, ok := syncRecvName(callee); ok && typ == "Cond" && (m == "Signal" || m == "Broadcast") {
+	if typ, m, ok := syncRecvName(callee); ok && typ == "Cond" && (m == "Broadcast" || (m == "Signal" && !broadcastOnly)) {
 		return true
 	}
 	if callee.Pkg != nil && callee.Pkg.Pkg.Path() == "time" && callee.Name() == "AfterFunc" && len(c.Call.Args) == 2 {
 		if mc, ok := c.Call.Args[1].(*ssa.MakeClosure); ok {
 			if f, ok := mc.Fn.(*ssa.Function); ok {
 				name := f.Name()
-				return name == "(*sync.Cond).Broadcast$bound" || name == "(*sync.Cond).Signal$bound" ||
-					(len(name) > 6 && (name[len(name)-len("Broadcast$bound"):] == "Broadcast$bound" || name[len(name)-len("Signal$bound"):] == "Signal$bound"))
+				return strings.HasSuffix(name, "Broadcast$bound") || (strings.HasSuffix(name, "Signal$bound") && !broadcastOnly)
 			}
 		}
 	}
@@ -228,17 +266,13 @@ func isRelease(in ssa.Instruction) bool {
 
 // wakeFollows: on every path from (b, idx) a wake instruction occurs before the
 // lock is released.
-func wakeFollows(b *ssa.BasicBlock, idx int, lt *LockType, e *Engine) bool {
-	type pos struct {
-		b *ssa.BasicBlock
-		i int
-	}
+func wakeFollows(b *ssa.BasicBlock, idx int, broadcastOnly bool) bool {
 	seen := map[*ssa.BasicBlock]bool{}
 	var visit func(b *ssa.BasicBlock, i int) bool
 	visit = func(b *ssa.BasicBlock, i int) bool {
 		for ; i < len(b.Instrs); i++ {
 			in := b.Instrs[i]
-			if isWake(in) {
+			if isWake(in, broadcastOnly) {
 				return true
 			}
 			if isRelease(in) {
